@@ -41,7 +41,11 @@ def gen_case(rng, spec):
     maxlen = 4 if spec.get("tier") == "quick" else 5
     if len(m["alphabet"]) >= 3:
         maxlen -= 1
-    return {"m": m, "R": rng.choice(SEMIRINGS), "maxlen": maxlen, "oseed": rng.randrange(1 << 30)}
+    R = rng.choice(SEMIRINGS)
+    if R in ("Q", "Float", "Real") and rng.random() < 0.15:
+        m["arcs"] = [[i, a, j, (-w if rng.random() < 0.4 else w)] for i, a, j, w in m["arcs"]]
+        m["signed"] = True
+    return {"m": m, "R": R, "maxlen": maxlen, "oseed": rng.randrange(1 << 30)}
 
 
 def run_case(case, ctx):
